@@ -16,10 +16,12 @@ VERIF = str(Path(__file__).resolve().parent.parent)
 if REPO not in sys.path:
     sys.path.insert(0, REPO)
 os.environ.setdefault("PYTHONHASHSEED", "0")
+import logging
+logging.disable(logging.CRITICAL)
 
 CAP_MAX = 1000000000  # sys.maxsize capacities are sent as 10^9 (OCaml ints are 63 bit)
-IMPL_BUDGET = 20000   # micro-transitions per state.step on the implementation
-MODEL_FUEL = 2500     # loop iterations per step in the model
+IMPL_BUDGET = 4000   # micro-transitions per state.step on the implementation
+MODEL_FUEL = 400     # loop iterations per step in the model
 
 
 class Unsupported(Exception):
@@ -420,6 +422,8 @@ class Recorder:
         self.log = None
         self.count = 0
         self.raw = None
+        self.micro = []
+        self.want_pre = False
         st.apply_transition = self._wrapped
         self.active = True
 
@@ -429,7 +433,11 @@ class Recorder:
             raise StepBudgetExceeded()
         new = self.orig(loglevel, state, instance, transition)
         if self.log is not None and self.codec is not None:
-            self.log.append(sx(self.codec.transition(transition), self.codec.state(new)))
+            pre_sx = self.codec.state(state) if self.want_pre else None
+            tr_sx = self.codec.transition(transition)
+            new_sx = self.codec.state(new)
+            self.log.append(sx(tr_sx, new_sx))
+            self.micro.append((pre_sx, tr_sx, new_sx))
         if self.raw is not None:
             self.raw.append((transition, state, new))
         return new
@@ -437,6 +445,7 @@ class Recorder:
     def begin(self, codec, keep_raw=False):
         self.codec = codec
         self.log = []
+        self.micro = []
         self.count = 0
         self.raw = [] if keep_raw else None
 
